@@ -470,3 +470,18 @@ def check_uniqueness(ctx):
                 why += "; extern-name validation dominates it: %s" % ok
             ctx.ob("R06.7", "insert|%s|%s" % (f.id, fld), ok, why, site="%s in %s" % (t.span, f.id))
     ctx.floor("R06.7", 5)
+
+
+def run_r061_only(ctx):
+    """R06.1 for the node-removal sites (used by C03: a removed provider's arguments become implicit imports again)."""
+    db, prov = ctx.db, ctx.prov
+    gfns = [f for f in db.fns.values() if f.crate == "wac_graph"]
+    adders, removers, readers, others = satisfied_helpers(ctx)
+    remover_ids = {f.id for f in removers}
+    for f in gfns:
+        cfg = None
+        for t in list(f.calls()):
+            p = t.path or ""
+            if p in (SG + "remove_node", SG + "retain_nodes"):
+                cfg = cfg or CFG(f)
+                check_node_removal(ctx, f, cfg, t, p[len(SG):], remover_ids, "%s in %s" % (t.span, f.id))
